@@ -112,7 +112,7 @@ def build_driver(chk, top, gen, libdir, dom, cpp, facts, allmap):
             return f[:-3] + ".o"
         with cf.ThreadPoolExecutor(N) as ex:
             os_ = list(ex.map(one, range(N)))
-        objs, _ = T.build_objects(top, gen, libdir, sorted({"implementation_common", dom, "Polyhedron"}), chk.log)
+        objs, _ = T.build_objects(top, gen, libdir, sorted({"implementation_common", dom, "Polyhedron"} | ({"Pointset_Powerset_NNC_Polyhedron"} & set(allmap))), chk.log)
         for attempt in range(4):      # the library cache may be evicted by a concurrent run on another tree: rebuild + retry
             libdir2 = common.build_lib("mpz")
             rc, out = common.sh(["g++"] + os_ + objs + [os.path.join(libdir2, "libppl_verif.a"), "-lgmpxx", "-lgmp", "-o", exe + ".tmp"], timeout=1800)
